@@ -144,6 +144,31 @@ def _ulist(name, n, elem="Issue"):
     return f
 
 
+def _float_parses(interp, args, kwargs):
+    from pyvc.calls import _str2float_ok
+    return SV(BOOL, _str2float_ok(_s(interp, args[0])))
+
+
+def _float_of(interp, args, kwargs):
+    from pyvc.calls import _str2float
+    return SV(REAL, _str2float(_s(interp, args[0])))
+
+
+def _entry_has_attribute(interp, args, kwargs):
+    """HedSchemaEntry.has_attribute(key): key in self.attributes (return_value form not modelled)"""
+    if kwargs.get("return_value") or len(args) > 2:
+        raise Unsupported("has_attribute(return_value=True)")
+    attrs = interp.field_read(args[0], "attributes")
+    return SV(BOOL, interp.ctx.zbool(interp.contains(attrs, args[1])))
+
+
+def _derivative_unit_of(interp, args, kwargs):
+    from pyvc.vals import TOpt, TRef
+    ty = TOpt(TRef("UnitEntry"))
+    f = z3.Function("derivative_unit_of", z3.IntSort(), z3.StringSort(), sort_of(ty))
+    return SV(ty, f(args[0].t, _s(interp, args[1])))
+
+
 def _empty_str_set(interp, args, kwargs):
     return SV(TSet(STR), z3.K(z3.StringSort(), z3.BoolVal(False)))
 
@@ -275,6 +300,8 @@ if z3 is not None:
         "string_issues_of": _ulist("string_issues_of", 3), "char_issues_of": _ulist("char_issues_of", 3),
         "canonical_issues_of": _ulist("canonical_issues_of", 1), "tag_rule_issues_of": _ulist("tag_rule_issues_of", 3),
         "def_issues_of": _ulist("def_issues_of", 2), "all_tags_of": _ulist("all_tags_of", 1, "HedTag"),
+        "derivative_unit_of": _derivative_unit_of, "float_parses": _float_parses, "float_of": _float_of, "SchemaEntry.has_attribute": _entry_has_attribute,
+        "UnitClassEntry.has_attribute": _entry_has_attribute, "UnitEntry.has_attribute": _entry_has_attribute,
         "tag_view": _tag_view, "basic_issues_of": _ulist("basic_issues_of", 3), "full_issues_of": _ulist("full_issues_of", 2),
         "str.replace": _str_replace, "replace_all": _str_replace,
         "forall_str": _forall_str, "dirname_of": _dirname_model, "commonpath2": _ufun("commonpath2", 2),
